@@ -27,8 +27,16 @@ pub fn set_active(on: bool) {
     ACTIVE.with(|a| a.set(on));
 }
 
+/// Is the calling thread one of several simulated threads?
 pub fn owns_scheduling() -> bool {
     TID.with(Cell::get) != usize::MAX
+}
+
+/// Should `lock` in a10 spin through the yield hook instead of parking in the
+/// OS? Also in single-threaded runs: there a lock that cannot be taken is a
+/// dead-lock (or a lock in freed memory) and must not hang the process.
+pub fn intercepts_locks() -> bool {
+    active()
 }
 
 pub fn tid() -> usize {
